@@ -27,7 +27,7 @@ notification fired by a timer task n virtual seconds later), NewConnection{initi
 version 0|1|2, initial state none|last|stale|foreign session|future serial, server version cap 0|1|2 (proxy answering \
 too-new queries with Error 4), socket buffer 16..65535 bytes}, SetReady. Oracle after every step that returned Ok: exactly \
 one apply; model (recorded announcements/withdrawals applied in order, ASPA keyed by customer, reset starts from empty) \
-restricted to the payload types of the version on the wire == source snapshot at Client::state() restricted likewise; \
+(unrestricted) == source snapshot at Client::state() restricted to the payload types of the version on the wire; \
 Client::state() names a state the source issued; for version >= 1 timing passed to apply == source timing. Err steps: no \
 apply. Every step must finish within 100000 socket operations and 200000 s of virtual time; a step with a ready source, no \
 stray Serial Notify and no notification timer outstanding must succeed. Non-trivial = history with >=1 update between two successful steps on one connection \
@@ -308,7 +308,11 @@ fn run_history(c: &Case, obs: &mut Obs) -> CheckResult {
                             let snap = src.snapshot_at(serial).ok_or_else(|| {
                                 Fail::new(format!("op #{}: Client::state() names serial {} which the source never issued (current {})", opi, serial, src.current().serial))
                             })?;
-                            let have = live.model.restricted(v);
+                            // The statement restricts the *source's* set to the payload types of
+                            // the negotiated version; what the client was handed is compared
+                            // unrestricted, so a server that sends (or a client that accepts)
+                            // payload types the version does not carry is a violation.
+                            let have = live.model.clone();
                             let want = snap.data.restricted(v);
                             ensure!(have == want,
                                 "op #{}: version {} step ({}): client data after applying the update differs from the source's set for serial {}: \
